@@ -108,7 +108,7 @@ class PythonParserGenerator(IndentPrintMixin, NodeWalker):
             if isinstance(p, int | float):
                 return str(p)
             else:
-                return repr(p.split('::')[0])
+                return repr(p)
 
         self.reset_counters()
         params = kwparams = ''
